@@ -94,6 +94,11 @@ structure Hist where
   gwReg : List (UInt16 × Bytes) := []
   gwBuf : List Bytes := []
   endedAt : Option Nat := none
+  /-- when the newest packet was written to the broker -/
+  lastMqOut : Option Nat := none
+  /-- PINGREQs the gateway has written on its own (sleep pinger, keep-alive hook) — every PINGREQ that is not
+      the translation of an active client's PINGREQ — minus the PINGRESPs that have come back since -/
+  ownPings : Nat := 0
   deriving Repr
 
 def predefVisible (cfg : Cfg) (cid : Bytes) (id : UInt16) : Option Bytes := cfg.predef.getTopicName cid id
@@ -114,6 +119,7 @@ def clientReads (cfg : Cfg) (h : Hist) (tit : UInt8) (id : UInt16) : List Bytes 
 
 /-- update the history with one step (input first, then its outputs) -/
 def Hist.afterStep (h : Hist) (s : Step) : Hist :=
+  let h0 := h
   -- input
   let h := match s.snIn with
     | some (.connect _ _ _ d cid) => if h.asleep then h else
@@ -134,7 +140,7 @@ def Hist.afterStep (h : Hist) (s : Step) : Hist :=
     | some (.connack rc) => if rc == 0 && h.mqConnectSent then { h with brokerAccepted := true } else h
     | _ => h
   -- outputs
-  let h := (s.outs ++ s.later).foldl (fun h (_, o) => match o with
+  let h : Hist := (s.outs ++ s.later).foldl (fun (h : Hist) (x : Nat × Out) => match x.2 with
     | .mq (.connect ..) => { h with mqConnectSent := true }
     | .mq (.subscribe _ _ topic _) =>
       (match s.snIn with
@@ -180,6 +186,13 @@ def Hist.afterStep (h : Hist) (s : Step) : Hist :=
       | .ok (_, .register tid mid name) => { h with gwRegisters := (mid, tid, name) :: h.gwRegisters }
       | _ => h)
     | _ => h) h
+  -- the broker link: the newest packet written, and the gateway's own pings still unanswered
+  let mqTimes := (s.outs ++ s.later).filterMap fun (x : Nat × Out) => match x.2 with | .mq _ => some x.1 | _ => none
+  let pings := ((s.outs ++ s.later).filter fun (x : Nat × Out) => x.2 == Out.mq .pingreq).length
+  let translated := match s.snIn with | some (.pingreq _) => if h0.asleep then 0 else 1 | _ => 0
+  let answered := match s.mqIn with | some .pingresp => 1 | _ => 0
+  let h := { h with lastMqOut := (mqTimes.getLast?).orElse (fun _ => h0.lastMqOut),
+                    ownPings := (h0.ownPings - answered) + (pings - translated) }
   -- a wake-up PINGREQ leaves the client asleep again after the PINGRESP; the gateway binds the
   -- ID of a string SUBSCRIBE when it forwards it (MQTT allows publishes before the SUBACK)
   h
@@ -310,7 +323,13 @@ def c03 (cfg : Cfg) (tr : List TE) : List Viol :=
         | none => [])
     | some (.pubrel mid), _ => if s.mqOuts == [.pubrel mid] then [] else v "pubrel-not-one-to-one"
     | some (.pingreq _), _ =>
-      if h.asleep then (if s.mqOuts.isEmpty then [] else v "wakeup-pingreq-forwarded")
+      if h.asleep then
+        -- a wake-up is answered by the gateway; it is not forwarded — but it proves the client alive, and the
+        -- gateway pings the broker on its behalf when nothing has been written for half a keep-alive
+        let stale := match h.lastMqOut with
+          | some t0 => (s.t - t0) * 2 ≥ h.keepAlive.toNat * 1000
+          | none => true
+        (if s.mqOuts.isEmpty || (s.mqOuts == [.pingreq] && stale) then [] else v "wakeup-pingreq-forwarded")
       else (if s.mqOuts == [.pingreq] then [] else v "pingreq-not-one-to-one")
     | some (.disconnect 0), _ => if s.mqOuts == [.disconnect] then [] else v "disconnect-not-one-to-one"
     | _, some (.pubrec mid) => if h.asleep || s.snOuts == [.pubrec mid] then [] else v "pubrec-not-one-to-one"
@@ -334,6 +353,8 @@ def c03 (cfg : Cfg) (tr : List TE) : List Viol :=
        | _, _ => [])
     | _, some .pingresp =>
       if h.asleep then (if s.snOuts.isEmpty then [] else v "pingresp-sent-to-sleeping-client")
+      -- the answer to a PINGREQ of the gateway itself is not the translation of anything
+      else if h.ownPings > 0 then (if s.snOuts.isEmpty then [] else v "own-ping-reply-passed-to-client")
       else (if s.snOuts == [.pingresp] then [] else v "pingresp-not-one-to-one")
     | _, _ => []
 
@@ -1018,10 +1039,18 @@ def c34 (cfg : Cfg) (tr : List TE) (tEnd : Nat) : List Viol :=
   | none => []
   | some (tv, lastPkt) =>
     let budget := (cfg.retryCount + 1) * cfg.retryDelay
-    -- an announced sleep keeps the pinger running until its end
-    let sleepEnd := match lastPkt with
-      | .disconnect d => tv + d.toNat * 1000
-      | _ => ((cds.filterMap fun (t, p) => match p with
+    -- an announced sleep keeps the pinger running until its end; the announced duration applies to every
+    -- sleep cycle (C11: after a wake-up the client is asleep again), so a client that falls silent after a
+    -- wake-up PINGREQ is pinged for one more announced duration — the bound of the property is "the announced
+    -- sleep duration plus 1.5 x keep-alive" from the point of silence
+    let lastSleep : Option UInt16 := cds.foldl (fun acc (x : Nat × Pkt) => match x.2 with
+      | .disconnect d => if d != 0 then some d else none
+      | .connect .. => none
+      | _ => acc) none
+    let sleepEnd := match lastPkt, lastSleep with
+      | .disconnect d, _ => tv + d.toNat * 1000
+      | .pingreq _, some d => tv + d.toNat * 1000
+      | _, _ => ((cds.filterMap fun (t, p) => match p with
           | .disconnect d => if d != 0 then some (t + d.toNat * 1000) else none
           | _ => none).foldl max tv)
     let quietFrom := max tv sleepEnd + budget + Gen.connTimeout
